@@ -373,6 +373,7 @@ TRUSTED_BASE = [
     'hand-written Gallina model of the anchored code (coq/Model/*.v); tied to /repo by the differential correspondence check of this run',
     'Python harness: generators, implementation observers, canonicalisation, rendering of cases as Gallina terms (harness/*.py)',
     'no axioms: every property theorem prints "Closed under the global context"',
+    'scenario programs (scenarios/<property>/*/demo.py): implementation-side tests of single usages, no model side; each is the failing input of a defect recorded in known_findings.json',
 ]
 
 
